@@ -48,7 +48,8 @@ func recogLine(l []byte) string {
 }
 
 func judgeC15line(l []byte, _ string, _ int) string {
-	if !isLine(l) {
+	// the recognizers are specified for lines whose leading indentation the caller has stripped
+	if !isLine(l) || (len(l) > 0 && (l[0] == ' ' || l[0] == '\t')) {
 		return ""
 	}
 	body := stripEOL(l)
